@@ -12,18 +12,21 @@ import (
 
 func main() {
 	if len(os.Args) < 2 {
-		fmt.Fprintln(os.Stderr, "usage: gosym run|check|replay ...")
+		fmt.Fprintln(os.Stderr, "usage: gosym run|check ...")
 		os.Exit(2)
 	}
+	code := 0
 	switch os.Args[1] {
 	case "run":
-		cmdRun(os.Args[2:])
+		code = cmdRun(os.Args[2:])
 	case "check":
-		os.Exit(cmdCheck(os.Args[2:]))
+		code = cmdCheck(os.Args[2:])
 	default:
 		fmt.Fprintln(os.Stderr, "unknown command", os.Args[1])
-		os.Exit(2)
+		code = 2
 	}
+	cleanupRewrites()
+	os.Exit(code)
 }
 
 // overlayFor maps harness source files into the repository tree (in memory only).
@@ -44,49 +47,42 @@ type strList []string
 func (s *strList) String() string     { return strings.Join(*s, ",") }
 func (s *strList) Set(v string) error { *s = append(*s, v); return nil }
 
-// cmdRun explores one harness and dumps the raw report (development aid).
-func cmdRun(args []string) {
+// cmdRun explores one harness of a group and dumps the raw report (development aid).
+func cmdRun(args []string) int {
 	fs := flag.NewFlagSet("run", flag.ExitOnError)
-	repo := fs.String("repo", "/repo", "repository root")
-	pkg := fs.String("pkg", ".", "package pattern (relative to repo)")
-	tags := fs.String("tags", "", "build tags")
-	dir := fs.String("hdir", "", "harness directory whose *.go files are overlaid into the package directory")
-	files := fs.String("files", "", "comma-separated dst=src overlay files (dst relative to repo)")
+	group := fs.String("group", "root", "harness group (see harness/mkspec.py)")
 	fn := fs.String("func", "", "harness function name")
 	workers := fs.Int("workers", 16, "workers")
 	verbose := fs.Bool("v", false, "verbose")
+	nviol := fs.Int("viol", 3, "violations to print")
 	var params strList
 	fs.Var(&params, "p", "harness parameter NAME=VALUE (repeatable)")
+	fs.String("hdir", "", "ignored (kept for old command lines)")
 	fs.Parse(args)
-	fm := map[string]string{"internal/vx/vx.go": "/verif/vx/vx.go"}
-	for _, kv := range strings.Split(*files, ",") {
-		if kv == "" {
-			continue
-		}
-		p := strings.SplitN(kv, "=", 2)
-		fm[p[0]] = p[1]
-	}
-	if *dir != "" {
-		ents, _ := os.ReadDir(*dir)
-		for _, e := range ents {
-			if strings.HasSuffix(e.Name(), ".go") {
-				fm[filepath.Join(*pkg, e.Name())] = filepath.Join(*dir, e.Name())
-			}
-		}
-	}
-	ov, err := overlayFor(*repo, fm)
+	spec, err := loadSpec()
 	if err != nil {
 		fmt.Fprintln(os.Stderr, err)
-		os.Exit(2)
+		return 2
 	}
-	pat := *pkg
-	if !strings.HasPrefix(pat, ".") {
-		pat = "./" + pat
+	g := spec.Groups[*group]
+	if g == nil {
+		fmt.Fprintln(os.Stderr, "unknown group", *group)
+		return 2
 	}
-	eng, err := LoadProgram(LoadConfig{Dir: *repo, Patterns: []string{pat}, Tags: *tags, Overlay: ov})
+	fm, err := harnessOverlay(spec)
+	if err != nil {
+		fmt.Fprintln(os.Stderr, err)
+		return 2
+	}
+	ov, err := overlayFor(spec.Repo, fm)
+	if err != nil {
+		fmt.Fprintln(os.Stderr, err)
+		return 2
+	}
+	eng, err := LoadProgram(LoadConfig{Dir: spec.Repo, Patterns: []string{"./" + g.Pkg}, Tags: g.Tags, Overlay: ov})
 	if err != nil {
 		fmt.Fprintln(os.Stderr, "load:", err)
-		os.Exit(2)
+		return 2
 	}
 	eng.overlaySrc = ov
 	eng.workers = *workers
@@ -97,22 +93,29 @@ func cmdRun(args []string) {
 		v, _ := strconv.ParseInt(p[1], 10, 64)
 		eng.params[p[0]] = v
 	}
-	var h = eng.findHarness(*fn)
+	for _, k := range loadKnown().Findings {
+		if k.Status == "known" {
+			eng.knownActive[k.ID] = true
+		}
+	}
+	h := eng.findHarness(*fn)
 	if h == nil {
 		fmt.Fprintln(os.Stderr, "no such harness:", *fn)
-		os.Exit(2)
+		return 2
 	}
 	rep := eng.Explore(h, 0, 0)
 	rep.Funcs = nil
 	rep.Unsupported = uniq(rep.Unsupported)
 	rep.Inconclusive = uniq(rep.Inconclusive)
 	rep.BudgetFails = uniq(rep.BudgetFails)
-	if len(rep.Violations) > 3 {
-		rep.Violations = rep.Violations[:3]
+	if len(rep.Violations) > *nviol {
+		rep.Violations = rep.Violations[:*nviol]
 	}
+	rep.Samples = nil
 	out, _ := json.MarshalIndent(rep, "", " ")
 	fmt.Println(string(out))
 	fmt.Fprintf(os.Stderr, "paths=%d completed=%d infeasible=%d queries=%d sat=%d unsat=%d unknown=%d errors=%d fallbacks=%d solver_s=%.2f wall=%.1f\n",
 		rep.Paths, rep.Completed, rep.Infeasible,
 		gStats.Queries, gStats.SatN, gStats.UnsatN, gStats.UnknownN, gStats.Errors, gStats.Fallbacks, float64(gStats.Nanos)/1e9, rep.Wall)
+	return 0
 }
